@@ -765,6 +765,18 @@ func TestC09_NoPanicExh(t *testing.T) {
 
 // ------------------------------------------------------------------ pass-through of unknown fields
 
+// the same members with the raw paragraph embedded last: where it sits in the declaration is
+// not supposed to matter
+type probePassLate struct {
+	Package string
+	Version version.Version
+	Depends dependency.Dependency
+	Tags    []string `control:"Tag" delim:", "`
+	Size    int      `control:"Installed-Size"`
+	Notes   string
+	control.Paragraph
+}
+
 type probePass struct {
 	control.Paragraph
 	Package string
@@ -969,6 +981,14 @@ var specC09Pass = Register(&Spec[PassCase]{
 		}
 		if !strSliceEq(x.Paragraph.Order, orderBefore) {
 			return errf("Marshal modified the struct's embedded Paragraph: Order %q became %q", orderBefore, x.Paragraph.Order)
+		}
+		late := probePassLate{Package: x.Package, Version: x.Version, Depends: x.Depends, Tags: x.Tags, Size: x.Size, Notes: x.Notes, Paragraph: x.Paragraph}
+		if textLate, err := marshalToText(&late); err != nil || textLate != text {
+			return errf("the same values marshal differently when the struct declares its embedded Paragraph after the known members: %q (err %v) instead of %q (document %q, changes %v)", textLate, err, text, doc, c.Set)
+		}
+		var lateIn probePassLate
+		if err := control.Unmarshal(&lateIn, strings.NewReader(doc)); err != nil || lateIn.Package != inputHas["Package"] || !strSliceEq(lateIn.Paragraph.Order, orderBefore) {
+			return errf("Unmarshal(%q) into the struct with the Paragraph declared last: err %v, Package %q, Order %q", doc, err, lateIn.Package, lateIn.Paragraph.Order)
 		}
 		out, err := paraOfText(text)
 		if err != nil {
